@@ -30,19 +30,13 @@ theorem feed_plain (b : Bot) (m : Msg) (h1 : m.pfx ≠ b.nick) (h2 : m.cmd ∉ G
 
 theorem feed_setter (b : Bot) (m : Msg) (h1 : m.pfx ≠ b.nick) (h2 : m.cmd ∈ Gen.nickSetters)
     (a0 : Str) (rest : List Str) (ha : m.args = a0 :: rest) (hn : a0 = b.nick) (hp : (b.pfxUpd m).nick = b.nick)
-    (h3 : (({ b.pfxUpd m with server := if m.pfx != (b.pfxUpd m).server then m.pfx else (b.pfxUpd m).server }).ircCmd m).2 = false) :
-    (b.feed m).1 =
-      (((({ b.pfxUpd m with server := if m.pfx != (b.pfxUpd m).server then m.pfx else (b.pfxUpd m).server }).ircCmd m).1.prelude m).stateCmd m).1 := by
+    (h3 : ((b.pfxUpd m).ircCmd m).2 = false) :
+    (b.feed m).1 = ((((b.pfxUpd m).ircCmd m).1.prelude m).stateCmd m).1 := by
   unfold Bot.feed
   simp only [h1, ↓reduceIte, h2, ha]
   have e : (if (m.nick = b.nick && b.pfx != m.pfx) = true then { b with pfx := m.pfx } else b) = b.pfxUpd m := rfl
   rw [e]
   have hn' : (a0 != (b.pfxUpd m).nick) = false := by simp [hp, hn]
-  simp only [hn', Bool.false_eq_true, ↓reduceIte]
-  by_cases hs : (m.pfx != (b.pfxUpd m).server) = true
-  · simp only [hs, ↓reduceIte] at h3 ⊢
-    simp only [Bool.false_eq_true, ↓reduceIte, h3, addMsg_eq]
-  · simp only [hs, Bool.false_eq_true, ↓reduceIte] at h3 ⊢
-    simp only [Bool.false_eq_true, ↓reduceIte, h3, addMsg_eq]
+  simp only [hn', Bool.false_eq_true, ↓reduceIte, h3, addMsg_eq]
 
 end C10
